@@ -89,7 +89,7 @@ def run(ctx):
                        'ops.parse "" = none (purl.FromString("") fails) in the CycloneDX theorems',
                        'uuid.New()/time.Now() are an arbitrary Env; they do not reach the observable',
                        'strings are valid UTF-8 (generator alphabet); SPDX .rdf is not an output format of the library and is excluded (f ≠ rdf)']
-    ctx.rule = ('case = (stream, output format, inventory); every inventory is run in all five formats. streams: matrix (every purl type x component (name, namespace, version, qualifier values, sub-path) x 15 byte classes that print/parse treat specially: blank % ? # @ / : + & = non-ASCII control %41 %2f and a mix; one inventory per (type, component)), fixed (empty inventory, one package per purl type in lower and '
+    ctx.rule = ('case = (stream, output format ~ formats exported before it, inventory); every inventory is ONE ScanResult value exported to all five formats in a generated order (as binary/cli does with several -o flags): the k-th case re-runs the k-1 earlier exports on the same value, exports, scans the file back, and compares the scan result with a deep copy taken before the first export (mut=). streams: matrix (every purl type x component (name, namespace, version, qualifier values, sub-path) x 15 byte classes that print/parse treat specially: blank % ? # @ / : + & = non-ASCII control %41 %2f and a mix; one inventory per (type, component)), fixed (empty inventory, one package per purl type in lower and '
                 'upper case, the 13-package probe, inventories whose names collide with the exporters\' structural vocabulary: main, main-*, Package-main, SPDXRef-DOCUMENT, NOASSERTION, NONE, SCALIBR, a_b/a-b/a+b …), valid, esc (JSON/YAML/XML/tag-value/URL-sensitive atoms), raw (newlines, tabs, <text>), ctl (control and non-characters), '
                 'malformed (purls packageurl-go rejects). inventory size 0..30, 15% purl-less, 10% with CPE metadata, 1/6 duplicates. non-trivial = at least one package with a purl; '
                 'distinct = distinct case lines. compared: sorted purl multiset (model vs implementation, and implementation vs Spec), count of purl-less returned packages')
@@ -99,6 +99,7 @@ def run(ctx):
         proofs_ok = ctx.leanchecker('Scalibr.Properties.C15') and proofs_ok
     n = {'quick': 1000, 'thorough': 20000}[ctx.tier]
     types = {}
+    positions = {}   # how many exports of the same ScanResult value preceded the judged one -> cases
     judged = {'all': {}, 'positively': {}}   # per format: cases, and cases in which every oracle clause up to the purl comparison held
 
     def nontrivial(case, fi, fm):
@@ -107,7 +108,7 @@ def run(ctx):
     def oracle(case, fi, fm):
         # the Spec (computed by the Lean driver from the case) judged against the IMPLEMENTATION's answer
         t = case.split(' ')
-        stream, fmt = t[1], t[2]
+        stream, fmt = t[1], t[2].split('~')[0]
         if 'spec' not in fm:
             return None                      # driver could not parse the case: reported as a correspondence failure
         for f in packages(case):
@@ -115,6 +116,10 @@ def run(ctx):
                 k = unhs(f[5]).lower()
                 types[k] = types.get(k, 0) + 1
         st = fi.get('st', fi.get('_'))
+        if fi.get('mut') == '1':
+            # "for every inventory" includes the one the previous export left behind: exporting must not modify the scan result
+            return ('exporting as %s (after %s) MODIFIED the scan result: the packages of the ScanResult value are no longer the deep copy taken before the exports '
+                    '(same packages, same order, same fields)' % (fmt, t[2].partition('~')[2].replace('+', ', ') or 'no earlier export'))
         if st != 'ok':
             return 'format %s, inventory of %s package(s): export + scan of the written file failed (%s); the specification expects the purls %s back' % (fmt, t[3], st, fm['spec'][:200])
         if fi.get('purls') != fm['spec']:
@@ -133,7 +138,7 @@ def run(ctx):
 
     def finding_class(case, fi, fm):
         t = case.split(' ')
-        fmt, st = t[2], fi.get('st', fi.get('_'))
+        fmt, st = t[2].split('~')[0], fi.get('st', fi.get('_'))
         judged['all'][fmt] = judged['all'].get(fmt, 0)   # (counted in classify)
         if fmt in ('spdx23-json', 'spdx23-yaml') and st == 'ok' and fi.get('purls') == fm.get('spec') and fm.get('specall') not in (None, fm.get('spec')) \
                 and fm.get('laws') != '0' and (t[1] == 'malformed' or fm.get('wf') == '1'):
@@ -146,13 +151,17 @@ def run(ctx):
 
     def classify(case, fi, fm):
         t = case.split(' ')
-        judged['all'][t[2]] = judged['all'].get(t[2], 0) + 1
-        return '%s %s st=%s' % (t[1], t[2], fi.get('st', fi.get('_')))
+        f0 = t[2].split('~')[0]
+        judged['all'][f0] = judged['all'].get(f0, 0) + 1
+        pos = 0 if '~' not in t[2] else t[2].count('+') + 1
+        positions[pos] = positions.get(pos, 0) + 1
+        return '%s %s st=%s' % (t[1], f0, fi.get('st', fi.get('_')))
 
     lib.standard_stream(ctx, gen='c15gen', driver='drv_c15', gen_args=['-seed', str(ctx.seed), '-n', str(n), '-tier', ctx.tier],
                         compare_keys=['purls', 'extra'], nontrivial=nontrivial, oracle=oracle, classify=classify, finding_class=finding_class,
                         strict_known=False)  # the model does not mirror the two recorded codec defects (it answers as the Spec does), so the class is excused on the implementation's status
     ctx.extra['purl_types_seen'] = dict(sorted(types.items()))
+    ctx.extra['exports_before_the_judged_one'] = dict(sorted(positions.items()))
     ctx.extra['judged_positively_by_format'] = {f: '%d of %d' % (judged['positively'].get(f, 0), k) for f, k in sorted(judged['all'].items())}
     ctx.extra['tag_value_share'] = ('spdx23-tag-value: %d of %d cases judged positively — the format never reads back on the unchanged code (known finding C15/spdx-tag-value-supplier), '
                                     'so for this format the theorems\' codec hypothesis is false for every inventory and the stream only re-confirms the finding' % (
